@@ -317,6 +317,11 @@ theorem positive_price_before_seizure :
     (∀ l ∈ [withdraw, kamino_withdraw, drift_withdraw, solend_withdraw],
       occursBefore l (· == .zeroAssetPriceCheck) isOp = true) := by decide
 
+/-- in the classic liquidation both positive-price checks run on every path (conditional depth 0) -/
+theorem liquidation_price_checks_unconditional :
+    unconditionally liquidate liquidate_cond (· == .zeroAssetPriceCheck) = true ∧
+    unconditionally liquidate liquidate_cond (· == .zeroLiabPriceCheck) = true := by decide
+
 /-- `b` occurs in `l` with `a` as the event right before it -/
 def rightAfter (l : List Ev) (a b : Ev) : Bool := (l.zip l.tail).any fun p => p.1 == a && p.2 == b
 
